@@ -14,6 +14,7 @@ TNext ==
        [] e.k = "link" -> UNCHANGED inflight
        [] e.k = "lsend" -> Send(e.dir, e.len, e.d)
        [] e.k = "lrecv" -> Recv(e.dir, e.len, e.d)
+       [] e.k = "lhold" -> StillIntact(e.d0, e.d) /\ UNCHANGED inflight
        [] e.k = "lerr" -> FALSE      \* a send or receive failed or timed out: the message was not delivered
        [] OTHER -> FALSE
 TSpec == TInit /\ [][TNext]_<<l, inflight>>
